@@ -110,6 +110,14 @@ fn table(tag: &str) -> Option<Vec<Slot>> {
         "start_deleverage" => vec![AccountGroupOnly, LiqRecord, Group, Signer(Risk), Sysvar],
         "end_deleverage" => vec![AccountGroupOnly, LiqRecord, Group, Signer(Risk)],
         "purge_deleverage_balance" => vec![Group, AccountGroupOnly, Signer(Risk), Bank],
+        // venue-backed banks: the venue's own accounts are bound to the bank by has_one, but no
+        // foreign twin of them exists in the world, so they are left unclaimed (Free)
+        "solend_deposit" => vec![Group, Account, Signer(User { recv: false }), Bank, Free, VaultAuth(LIQ), Vault(LIQ)],
+        "solend_withdraw" => vec![Group, Account, Signer(User { recv: true }), Bank, Free, VaultAuth(LIQ), Vault(LIQ)],
+        "kamino_deposit" => vec![Group, Account, Signer(User { recv: false }), Bank, Free, VaultAuth(LIQ), Vault(LIQ)],
+        "kamino_withdraw" => vec![Group, Account, Signer(User { recv: true }), Bank, Free, VaultAuth(LIQ), Vault(LIQ)],
+        "drift_deposit" => vec![Group, Account, Signer(User { recv: false }), Bank, Free, VaultAuth(LIQ), Vault(LIQ)],
+        "drift_withdraw" => vec![Group, Account, Signer(User { recv: true }), Bank, Free, VaultAuth(LIQ), Vault(LIQ)],
         "edit_staked_settings" => vec![Group, Signer(GroupAdmin), BankPda],
         "propagate_staked_settings" => vec![Group, BankPda, Bank],
         _ => return None,
